@@ -179,6 +179,43 @@ pub fn run(ctx: &Ctx) -> Report {
             }
         }
     }
+    // call sequences on a fresh thread: messages that collide on (kind, offset/address, length, byte sum)
+    let cf = crate::props::c01::colliding_frames(ctx.seed);
+    let mut cm: Vec<Message<'static>> = cf.iter().filter(|f| f.1 == 0).map(|f| Message::SendData(Offset(f.0), Data::try_new(f.2.clone()).unwrap())).collect();
+    cm.push(Message::ReportState(Address(0x0102), STATES[3].0));
+    cm.push(Message::ReportState(Address(0x0201), STATES[3].0));
+    cm.push(Message::DataChunksSent(ChunkCount(0x0102)));
+    cm.push(Message::DataChunksSent(ChunkCount(0x0201)));
+    cm.push(Message::Hello(Address(0x00FF)));
+    cm.push(Message::QueryState(Address(0x00FF)));
+    let k = cm.len();
+    let mut seq_evals = 0u64;
+    for i in 0..k {
+        for j in 0..k {
+            for l in 0..=k {
+                let mut seqm = vec![cm[i].clone(), cm[j].clone()];
+                if l < k {
+                    seqm.push(cm[l].clone());
+                }
+                seq_evals += seqm.len() as u64;
+                let seq2 = seqm.clone();
+                let r = crate::util::in_fresh_thread(move || {
+                    for (step, m) in seq2.iter().enumerate() {
+                        let (vs, _) = check_message(m);
+                        if let Some(v) = vs.into_iter().next() {
+                            return Some((step, v));
+                        }
+                    }
+                    None
+                });
+                if let Some((step, (clause, class, detail))) = r {
+                    let (clause, class) = if step == 0 { (clause, class) } else { ("history-independent", format!("step-{}:{}", step.min(2), class)) };
+                    all.violation(ID, Violation::new(clause, class, format!("step {} of a sequence on one thread: {}", step, detail), json!({"kind": "sequence", "messages": seqm.iter().map(msg_json).collect::<Vec<_>>()}), (1u64 << 40) + ((i * k + j) * (k + 1) + l) as u64));
+                }
+            }
+        }
+    }
+    all.evals += seq_evals;
     for i in [3u64, dom.n_sd1 + 700, dom.n_sd1 + dom.n_sd2 + 6, n - 5] {
         let m = dom.get(i);
         all.samples.push(json!({"message": msg_str(&m), "wire": crate::util::show_bytes(&Frame::from(m.clone()).to_bytes_with_newline())}));
@@ -199,6 +236,19 @@ pub fn replay(_ctx: &Ctx, case: &Value) -> Result<Vec<Violation>, String> {
             let m = msg_from_json(&case["message"]);
             let (vs, _) = check_message(&m);
             Ok(vs.into_iter().map(|(c, k, d)| Violation::new(c, k, d, case.clone(), 0)).collect())
+        }
+        Some("sequence") => {
+            let seqm: Vec<Message<'static>> = case["messages"].as_array().ok_or("messages")?.iter().map(msg_from_json).collect();
+            let r = crate::util::in_fresh_thread(move || {
+                for (step, m) in seqm.iter().enumerate() {
+                    let (vs, _) = check_message(m);
+                    if let Some(v) = vs.into_iter().next() {
+                        return Some((step, v));
+                    }
+                }
+                None
+            });
+            Ok(r.into_iter().map(|(step, (c, k, d))| if step == 0 { Violation::new(c, k, d, case.clone(), 0) } else { Violation::new("history-independent", format!("step-{}:{}", step.min(2), k), d, case.clone(), 0) }).collect())
         }
         Some("pair") => {
             let (m1, m2) = (msg_from_json(&case["m1"]), msg_from_json(&case["m2"]));
